@@ -455,6 +455,21 @@ func VerifTypeVariableName(pkgName, typeName string, pointer bool, defaultName, 
 // VerifIsWireImport exposes isWireImport.
 func VerifIsWireImport(path string) bool { return isWireImport(path) }
 
+// VerifPathProbe runs the path logic of the generator on one import path:
+// the key qualifyImport files the path under (its vendor prefix stripped),
+// importableFrom(path, from) and isWireImport(path).
+func VerifPathProbe(path, from string) (unvendored string, importable, isWire bool) {
+	g := &gen{
+		pkg:     &packages.Package{PkgPath: "\x00", Types: types.NewPackage("\x00", "p")},
+		imports: make(map[string]importInfo),
+	}
+	g.qualifyImport("n", path)
+	for k := range g.imports {
+		unvendored = k
+	}
+	return unvendored, importableFrom(path, from), isWireImport(path)
+}
+
 // VerifValueCheck type-checks "package p; <decls>; var _ = Value(<expr>)"
 // and runs processValue on the call.
 func VerifValueCheck(decls, expr string) (accepted bool, msg string) {
